@@ -89,7 +89,7 @@ pub fn subject_programs() -> Vec<(Program, Vec<Vec<u64>>)> {
         vec![vec![200], vec![1], vec![242]],
     ));
     v.push((
-        Program::new("ext_div", vec![E, E], vec![DivExt(0, 1), InverseExt(1), MulAddExt(0, 1, 2), PolyEvalExt(vec![0, 1, 2, 3], 4), ReduceBase(0, vec![5, 6])]),
+        Program::new("ext_div", vec![E, E], vec![DivExt(0, 1), InverseExt(1), MulAddExt(0, 1, 2), PolyEvalExt(vec![0, 1, 2, 3], 4), ReduceExt(0, vec![5, 4])]),
         vec![vec![1, 2, 3, 4], vec![P - 1, 0, 0, 1], vec![0, 0, 1, 1]],
     ));
     v
